@@ -146,6 +146,22 @@ pub mod qs {
         }
     }
 
+    /// `resize` on backends with spare capacity (`with_capacity`, growth by
+    /// `push`), then readers.
+    #[kani::proof]
+    #[kani::unwind(8)]
+    pub fn bitvec_capacity_resize() {
+        let mut v = BitVec::with_capacity(256);
+        let n: usize = 6;
+        v.resize(n, kani::any());
+        let i: usize = kani::any();
+        let _ = v.get(i);
+        let mut it = v.iter_ones();
+        let _ = it.next();
+        kani::cover!(true);
+        std::mem::forget(v);
+    }
+
     /// AtomicBitVec with arbitrary indices.
     #[kani::proof]
     #[kani::unwind(8)]
